@@ -1,0 +1,283 @@
+//! Verification seams (cargo feature `verif`, off by default).
+//!
+//! Nothing here changes behaviour unless an external simulator calls [install()]: with no hook table
+//! installed every function is a no-op or falls back to the real call, and the shim atomics are
+//! `#[repr(transparent)]` wrappers that forward to the `std` atomics they wrap.
+//!
+//! The seams:
+//!   - shim atomics ([AtomicBool], [AtomicU32], [AtomicU64], [AtomicUsize], [fence()]) reporting *before* every operation
+//!     (a deterministic simulator turns each report into a scheduling point);
+//!   - [yield_point()] for plain (non-atomic) shared accesses;
+//!   - [spin_hint()] inside spin loops;
+//!   - spurious failure of `compare_exchange_weak` (legal by its contract);
+//!   - [sleep()] / [thread_sleep()] so simulated time can replace real sleeping;
+//!   - [sequence_origin()] consulted by the ring-buffers' constructors (so histories may start next to the u32 wrap);
+//!   - [probe()] "this rare branch was reached" counters;
+//!   - region ledger ([region_new()], [region_freed()], [region_check()]) for "used after it was dropped" detection;
+//!   - re-exports of crate-private items an external harness needs.
+
+use std::{
+    panic::Location,
+    sync::atomic::{self, Ordering},
+    time::Duration,
+};
+
+pub use crate::incremental_averages::AtomicIncrementalAverage64;
+pub use crate::streams_manager::StreamsManagerBase;
+
+/// What kind of event is being reported to [HookTable::sched_point]
+#[derive(Clone, Copy, Debug, PartialEq, Eq)]
+pub enum PointKind {
+    Load,
+    Store,
+    Rmw,
+    Cas,
+    Fence,
+    /// a plain (non-atomic) shared access
+    Plain,
+}
+
+/// The functions a simulator may install. All of them are called on the thread performing the operation.
+#[derive(Clone, Copy)]
+pub struct HookTable {
+    /// called right before each shimmed atomic operation and at each [yield_point()]
+    pub sched_point: fn(kind: PointKind, loc: &'static Location<'static>),
+    /// called inside spin loops: "I cannot progress until somebody else runs"
+    pub spin_hint: fn(loc: &'static Location<'static>),
+    /// asked only when a `compare_exchange_weak` would succeed: `true` makes it fail spuriously
+    pub weak_cas_fails: fn(loc: &'static Location<'static>) -> bool,
+    /// named reach counters
+    pub probe: fn(name: &'static str),
+    /// starting value for the sequence counters of newly built ring buffers
+    pub sequence_origin: fn() -> u32,
+    /// returns `true` if the sleep was simulated (otherwise the caller really sleeps)
+    pub sleep: fn(duration: Duration) -> bool,
+    /// region ledger: `event` is 0 = new, 1 = freed, 2 = check (used)
+    pub region: fn(event: u8, id: u64, what: &'static str),
+}
+
+static HOOKS: atomic::AtomicPtr<HookTable> = atomic::AtomicPtr::new(std::ptr::null_mut());
+static REGION_IDS: atomic::AtomicU64 = atomic::AtomicU64::new(1);
+
+/// Installs (once per process) the simulator's hook table. The table is leaked on purpose.
+pub fn install(table: HookTable) {
+    let leaked = Box::leak(Box::new(table));
+    HOOKS.store(leaked, Ordering::SeqCst);
+}
+
+#[inline(always)]
+fn hooks() -> Option<&'static HookTable> {
+    let ptr = HOOKS.load(Ordering::Relaxed);
+    if ptr.is_null() {
+        None
+    } else {
+        Some(unsafe { &*ptr })
+    }
+}
+
+#[inline(always)]
+#[track_caller]
+fn point(kind: PointKind) {
+    if let Some(hooks) = hooks() {
+        (hooks.sched_point)(kind, Location::caller());
+    }
+}
+
+/// Scheduling point for a plain (non-atomic) access to shared state
+#[inline(always)]
+#[track_caller]
+pub fn yield_point() {
+    point(PointKind::Plain);
+}
+
+/// To be placed inside spin loops
+#[inline(always)]
+#[track_caller]
+pub fn spin_hint() {
+    if let Some(hooks) = hooks() {
+        (hooks.spin_hint)(Location::caller());
+    }
+}
+
+/// Counts that a branch of interest was reached
+#[inline(always)]
+pub fn probe(name: &'static str) {
+    if let Some(hooks) = hooks() {
+        (hooks.probe)(name);
+    }
+}
+
+/// The value the sequence counters of a ring buffer under construction should start from (0 unless a simulator says otherwise)
+#[inline(always)]
+pub fn sequence_origin() -> u32 {
+    match hooks() {
+        Some(hooks) => (hooks.sequence_origin)(),
+        None => 0,
+    }
+}
+
+/// `tokio::time::sleep()` seam
+pub async fn sleep(duration: Duration) {
+    if let Some(hooks) = hooks() {
+        if (hooks.sleep)(duration) {
+            return;
+        }
+    }
+    tokio::time::sleep(duration).await
+}
+
+/// `std::thread::sleep()` seam
+pub fn thread_sleep(duration: Duration) {
+    if let Some(hooks) = hooks() {
+        if (hooks.sleep)(duration) {
+            return;
+        }
+    }
+    std::thread::sleep(duration)
+}
+
+/// Region ledger: a fresh id for a tracked object
+pub fn region_new(what: &'static str) -> u64 {
+    let id = REGION_IDS.fetch_add(1, Ordering::Relaxed);
+    if let Some(hooks) = hooks() {
+        (hooks.region)(0, id, what);
+    }
+    id
+}
+
+/// Region ledger: the tracked object was dropped
+pub fn region_freed(id: u64, what: &'static str) {
+    if let Some(hooks) = hooks() {
+        (hooks.region)(1, id, what);
+    }
+}
+
+/// Region ledger: the tracked object is being used
+#[inline(always)]
+pub fn region_check(id: u64, what: &'static str) {
+    if let Some(hooks) = hooks() {
+        (hooks.region)(2, id, what);
+    }
+}
+
+/// `std::sync::atomic::fence()` seam
+#[inline(always)]
+#[track_caller]
+pub fn fence(order: Ordering) {
+    point(PointKind::Fence);
+    atomic::fence(order)
+}
+
+macro_rules! shim_atomic {
+    ($name: ident, $std_atomic: ty, $value: ty) => {
+        /// Reporting wrapper around the `std` atomic of the same name
+        #[repr(transparent)]
+        #[derive(Default)]
+        pub struct $name($std_atomic);
+
+        impl std::fmt::Debug for $name {
+            fn fmt(&self, f: &mut std::fmt::Formatter<'_>) -> std::fmt::Result {
+                std::fmt::Debug::fmt(&self.0, f)
+            }
+        }
+
+        impl $name {
+            #[inline(always)]
+            pub const fn new(value: $value) -> Self {
+                Self(<$std_atomic>::new(value))
+            }
+            #[inline(always)]
+            #[track_caller]
+            pub fn load(&self, order: Ordering) -> $value {
+                point(PointKind::Load);
+                self.0.load(order)
+            }
+            #[inline(always)]
+            #[track_caller]
+            pub fn store(&self, value: $value, order: Ordering) {
+                point(PointKind::Store);
+                self.0.store(value, order)
+            }
+            #[inline(always)]
+            #[track_caller]
+            pub fn swap(&self, value: $value, order: Ordering) -> $value {
+                point(PointKind::Rmw);
+                self.0.swap(value, order)
+            }
+            #[inline(always)]
+            #[track_caller]
+            pub fn compare_exchange(&self, current: $value, new: $value, success: Ordering, failure: Ordering) -> Result<$value, $value> {
+                point(PointKind::Cas);
+                self.0.compare_exchange(current, new, success, failure)
+            }
+            #[inline(always)]
+            #[track_caller]
+            pub fn compare_exchange_weak(&self, current: $value, new: $value, success: Ordering, failure: Ordering) -> Result<$value, $value> {
+                point(PointKind::Cas);
+                if let Some(hooks) = hooks() {
+                    let observed = self.0.load(Ordering::Relaxed);
+                    if observed == current && (hooks.weak_cas_fails)(Location::caller()) {
+                        return Err(observed);
+                    }
+                }
+                self.0.compare_exchange(current, new, success, failure)
+            }
+            /// un-instrumented read, for harness-side inspection only
+            #[inline(always)]
+            pub fn peek(&self) -> $value {
+                self.0.load(Ordering::Relaxed)
+            }
+        }
+    }
+}
+
+macro_rules! shim_atomic_arith {
+    ($name: ident, $value: ty) => {
+        impl $name {
+            #[inline(always)]
+            #[track_caller]
+            pub fn fetch_add(&self, value: $value, order: Ordering) -> $value {
+                point(PointKind::Rmw);
+                self.0.fetch_add(value, order)
+            }
+            #[inline(always)]
+            #[track_caller]
+            pub fn fetch_sub(&self, value: $value, order: Ordering) -> $value {
+                point(PointKind::Rmw);
+                self.0.fetch_sub(value, order)
+            }
+        }
+    }
+}
+
+shim_atomic!(AtomicBool,  atomic::AtomicBool,  bool);
+shim_atomic!(AtomicU32,   atomic::AtomicU32,   u32);
+shim_atomic!(AtomicU64,   atomic::AtomicU64,   u64);
+shim_atomic!(AtomicUsize, atomic::AtomicUsize, usize);
+shim_atomic_arith!(AtomicU32,   u32);
+shim_atomic_arith!(AtomicU64,   u64);
+shim_atomic_arith!(AtomicUsize, usize);
+
+/// Spin-flag stand-in for `parking_lot::RawMutex` (same `lock()` / `unlock()` surface), so that the code around it
+/// interleaves under a simulator (the real mutex would park the OS thread)
+pub struct RawMutex(AtomicBool);
+
+impl RawMutex {
+    #[allow(clippy::declare_interior_mutable_const)]
+    pub const INIT: RawMutex = RawMutex(AtomicBool::new(false));
+    #[inline(always)]
+    #[track_caller]
+    pub fn lock(&self) {
+        while self.0.compare_exchange(false, true, Ordering::Acquire, Ordering::Relaxed).is_err() {
+            spin_hint();
+            std::hint::spin_loop();
+        }
+    }
+    /// # Safety
+    /// same contract as `lock_api::RawMutex::unlock()`: the caller holds the lock
+    #[inline(always)]
+    #[track_caller]
+    pub unsafe fn unlock(&self) {
+        self.0.store(false, Ordering::Release);
+    }
+}
